@@ -255,6 +255,10 @@ func checkC15(c C15Case, o *Obs) error {
 			if !bytes.Equal(arg, argCopy) {
 				return fmt.Errorf("step %d %s modified its argument", step, desc)
 			}
+			// The caller may reuse its buffer: the trie must not depend on it afterwards.
+			for i := range arg {
+				arg[i] ^= 0x55
+			}
 			absorbed, already := m.add(s)
 			o.ClassIf(absorbed, "add absorbs prefix")
 			o.ClassIf(already, "add of existing prefix")
